@@ -48,7 +48,7 @@ VARIABLE i
 Off == 2000000000
 Cl(st, n, b) == [st |-> st, n |-> n, ok |-> b]
 Bit(b) == IF b THEN "1" ELSE "0"
-InR(x) == P!InRange(x)
+InR(x) == InRange(x)
 AllInR(s) == \A k \in DOMAIN s : InR(s[k])
 AllEq(s, v) == \A k \in DOMAIN s : s[k] = v
 HW(r) == r.h * r.w
@@ -83,7 +83,7 @@ InputClauses(r) ==
 
 NoiseFixedOk(r, Y) ==
     /\ Len(r.ns) = HW(r) /\ Len(r.nsf) = HW(r) /\ r.fs >= 1 /\ r.ff >= 1 /\ r.nh = r.h /\ r.nw = r.w
-    /\ \A k \in 1 .. HW(r) : P!SqrtOk(r.ns[k], r.nsf[k], CountsRad(Y[k], r.tm), r.fs, r.ff)
+    /\ \A k \in 1 .. HW(r) : SqrtOk(r.ns[k], r.nsf[k], CountsRad(Y[k], r.tm), r.fs, r.ff)
 
 ImgClauses(r) ==
     IF ~ ImgWellFormed(r) THEN << Cl("Driver", "well-formed-imaging-record", FALSE) >>
@@ -149,8 +149,11 @@ PsfClauses(r) ==
     IF ~ PsfWellFormed(r) THEN << Cl("Driver", "well-formed-psf-record", FALSE) >>
     ELSE IF r.raised # "" THEN << Cl("Call", "no-exception", FALSE) >>
     ELSE IF ~ r.psf
-    THEN << Cl("ReturnPsf", "without-psf-the-simulator-and-dataset-psf-do-not-blur",
-               IsDelta(r.simpsf, r.skh, r.skw) /\ IsDelta(r.dspsf, r.pkh, r.pkw)) >>
+    THEN \* (undocumented convention, only its harmlessness is judged: no PSF object at all -- recorded as an empty
+         \*  kernel -- or a kernel that does not blur)
+         << Cl("ReturnPsf", "without-psf-the-simulator-and-dataset-psf-do-not-blur",
+               /\ (r.simpsf = << >> \/ IsDelta(r.simpsf, r.skh, r.skw))
+               /\ (r.dspsf = << >> \/ IsDelta(r.dspsf, r.pkh, r.pkw))) >>
     ELSE LET want == PsfFine(r.k, r.norm)
          IN << Cl("ReturnPsf", "simulator-psf-is-the-given-psf-normalised-as-asked",
                   r.skh = r.kh /\ r.skw = r.kw /\ r.simpsf = want),
@@ -165,8 +168,8 @@ PsfRenormalised(r) ==
     /\ r.inb = r.ina
 
 \* ---- interferometer: one call ---------------------------------------------------------------------------
-Un(r) == { D!CellOf(r.u[k], r.w) : k \in DOMAIN r.u }
-Cen(r) == D!Centres(Un(r), r.h, r.w, << r.org[1], r.org[2] >>)
+Un(r) == { CellOf(r.u[k], r.w) : k \in DOMAIN r.u }
+Cen(r) == Centres(Un(r), r.h, r.w, << r.org[1], r.org[2] >>)
 Bl(r) == [k \in DOMAIN r.b |-> << r.b[k][1], r.b[k][2] >>]
 Pairs(s) == [k \in DOMAIN s |-> << s[k][1], s[k][2] >>]
 VisWellFormed(r) ==
@@ -176,10 +179,10 @@ VisWellFormed(r) ==
     /\ \A n \in DOMAIN r.img : Abs(r.img[n]) <= 64
 VisClauses(r) ==
     IF ~ VisWellFormed(r) THEN << Cl("Driver", "well-formed-interferometer-record", FALSE) >>
-    ELSE IF ~ D!OnLattice(Cen(r), Bl(r)) THEN << Cl("Driver", "input-on-the-quarter-turn-lattice", FALSE) >>
+    ELSE IF ~ OnLattice(Cen(r), Bl(r)) THEN << Cl("Driver", "input-on-the-quarter-turn-lattice", FALSE) >>
     ELSE IF r.raised # "" THEN << Cl("Call", "no-exception", FALSE) >>
     ELSE
-    LET want == D!Vis(r.img, Cen(r), Bl(r))
+    LET want == DftVis(r.img, Cen(r), Bl(r))
         K == Len(r.b)
     IN << Cl("Transform", "noise-free-visibilities-are-the-forward-transform-on-the-mask",
              (~ r.sigma) => (~ r.off /\ Pairs(r.vis) = want)),
@@ -249,7 +252,7 @@ Want(r) ==
            IN [convolved |-> conv, noise_free_with_sky |-> XOf(r, conv),
                data_times_tm_if_noise_free |-> Scale(AddConst(conv, IF r.sub THEN 0 ELSE r.sky), r.tm)]
       [] r.api = "imgpsf" /\ PsfWellFormed(r) -> [psf |-> PsfFine(r.k, r.norm)]
-      [] r.api = "vis" /\ VisWellFormed(r) -> [vis |-> D!Vis(r.img, Cen(r), Bl(r))]
+      [] r.api = "vis" /\ VisWellFormed(r) -> [vis |-> DftVis(r.img, Cen(r), Bl(r))]
       [] OTHER -> << >>
 
 TraceInit == /\ i = 1
